@@ -11,20 +11,20 @@ open PttVerif.C14
 variable (proc : Nat → Nat) (n0 : Nat)
 
 /-- the inductive invariant holds in every reachable state. -/
-theorem invariant (s : Sys) (h : Reachable proc n0 s) : Inv proc n0 s := reachable_inv proc n0 s h
+theorem invariant (s : Sys) (h : Reachable proc true n0 s) : Inv proc n0 s := reachable_inv proc n0 s h
 
 /-- at most one thread is between flock and funlock, system-wide. -/
-theorem mutual_exclusion (s : Sys) (h : Reachable proc n0 s) (t u : Nat)
+theorem mutual_exclusion (s : Sys) (h : Reachable proc true n0 s) (t u : Nat)
     (ht : holds (s.pc t) = true) (hu : holds (s.pc u) = true) : t = u :=
   holds_unique (reachable_inv proc n0 s h) t u ht hu
 
 /-- within one process at most one thread owns the lock-table entry. -/
-theorem one_owner_per_process (s : Sys) (h : Reachable proc n0 s) (t u : Nat)
+theorem one_owner_per_process (s : Sys) (h : Reachable proc true n0 s) (t u : Nat)
     (ht : owns (s.pc t) = true) (hu : owns (s.pc u) = true) (hp : proc t = proc u) : t = u :=
   (reachable_inv proc n0 s h).owner_unique t u ht hu hp
 
 /-- returned indices are pairwise distinct (also against calls that have written but not yet returned). -/
-theorem distinct_indices (s : Sys) (h : Reachable proc n0 s) (t u i : Nat)
+theorem distinct_indices (s : Sys) (h : Reachable proc true n0 s) (t u i : Nat)
     (ht : wroteAt (s.pc t) = some i) (hu : wroteAt (s.pc u) = some i) : t = u := by
   have inv := reachable_inv proc n0 s h
   have a := inv.written_at t i ht
@@ -33,7 +33,7 @@ theorem distinct_indices (s : Sys) (h : Reachable proc n0 s) (t u i : Nat)
   exact Option.some.inj (Option.some.inj b)
 
 /-- a returned index holds that call's record, intact, and lies after the old records. -/
-theorem records_intact (s : Sys) (h : Reachable proc n0 s) (t i : Nat) (ht : s.pc t = .doneOk i) :
+theorem records_intact (s : Sys) (h : Reachable proc true n0 s) (t i : Nat) (ht : s.pc t = .doneOk i) :
     s.recs[i]? = some (some t) ∧ n0 ≤ i := by
   have inv := reachable_inv proc n0 s h
   have a := inv.written_at t i (by rw [ht]; rfl)
@@ -46,14 +46,14 @@ theorem records_intact (s : Sys) (h : Reachable proc n0 s) (t i : Nat) (ht : s.p
   · exact hge
 
 /-- the old records are never touched. -/
-theorem old_records_untouched (s : Sys) (h : Reachable proc n0 s) :
+theorem old_records_untouched (s : Sys) (h : Reachable proc true n0 s) :
     s.recs.take n0 = List.replicate n0 none := by
   obtain ⟨ws, h1, _, _⟩ := (reachable_inv proc n0 s h).writers
   rw [h1]; simp
 
 /-- file length = initial length + one record per call that has written; the writers are exactly
 the threads that wrote (each once): `ws` is duplicate-free and its members are those threads. -/
-theorem final_length (s : Sys) (h : Reachable proc n0 s) :
+theorem final_length (s : Sys) (h : Reachable proc true n0 s) :
     ∃ ws : List Nat, s.recs.length = n0 + ws.length ∧ ws.Nodup ∧
       ∀ t, t ∈ ws ↔ (wroteAt (s.pc t)).isSome = true := by
   obtain ⟨ws, h1, h2, h3⟩ := (reachable_inv proc n0 s h).writers
@@ -63,7 +63,7 @@ theorem final_length (s : Sys) (h : Reachable proc n0 s) :
 def quiescent (s : Sys) : Prop := ∀ t, owns (s.pc t) = false
 
 /-- when every call has returned, every lock table is empty and the kernel lock is free. -/
-theorem locks_released (s : Sys) (h : Reachable proc n0 s) (q : quiescent s) :
+theorem locks_released (s : Sys) (h : Reachable proc true n0 s) (q : quiescent s) :
     s.holder = none ∧ ∀ p, s.table p = false := by
   have inv := reachable_inv proc n0 s h
   constructor
@@ -83,23 +83,23 @@ theorem locks_released (s : Sys) (h : Reachable proc n0 s) (q : quiescent s) :
 /-- run thread `t` for `k` consecutive steps. -/
 def runThread (t : Nat) : Nat → Sys → Option Sys
   | 0, s => some s
-  | k + 1, s => (step proc s t).bind (runThread t k)
+  | k + 1, s => (step proc true s t).bind (runThread t k)
 
-theorem runThread_reachable (t : Nat) : ∀ (k : Nat) (s s' : Sys), Reachable proc n0 s →
-    runThread proc t k s = some s' → Reachable proc n0 s' := by
+theorem runThread_reachable (t : Nat) : ∀ (k : Nat) (s s' : Sys), Reachable proc true n0 s →
+    runThread proc t k s = some s' → Reachable proc true n0 s' := by
   intro k
   induction k with
   | zero => intro s s' r e; simp [runThread] at e; subst e; exact r
   | succ k ih =>
     intro s s' r e
     simp only [runThread] at e
-    cases hs : step proc s t with
+    cases hs : step proc true s t with
     | none => rw [hs] at e; simp at e
     | some s1 => rw [hs] at e; exact ih s1 s' (.step t r hs) e
 
 /-- an append issued after the others have finished always succeeds, at the next index:
 the thread's six atomic steps are all enabled and it returns `length + 1`. -/
-theorem later_append_succeeds (s : Sys) (h : Reachable proc n0 s) (q : quiescent s) (t : Nat)
+theorem later_append_succeeds (s : Sys) (h : Reachable proc true n0 s) (q : quiescent s) (t : Nat)
     (ht : s.pc t = .start) :
     ∃ s', runThread proc t 6 s = some s' ∧ s'.pc t = .doneOk s.recs.length ∧
       s'.recs = s.recs ++ [some t] ∧ s'.holder = none ∧ s'.table (proc t) = false := by
@@ -110,12 +110,12 @@ theorem later_append_succeeds (s : Sys) (h : Reachable proc n0 s) (q : quiescent
   let s4 : Sys := { s3 with pc := setPc s3 t (.written s.recs.length), recs := writeRec s.recs s.recs.length t }
   let s5 : Sys := { s4 with pc := setPc s4 t (.unlocked s.recs.length), holder := none }
   let s6 : Sys := { s5 with pc := setPc s5 t (.doneOk s.recs.length), table := setTable s5 (proc t) false }
-  have e1 : step proc s t = some s1 := by simp [step, ht, htab, s1]
-  have e2 : step proc s1 t = some s2 := by simp [step, s1, s2, hh]
-  have e3 : step proc s2 t = some s3 := by simp [step, s2, s3, s1]
-  have e4 : step proc s3 t = some s4 := by simp [step, s3, s4, s2, s1]
-  have e5 : step proc s4 t = some s5 := by simp [step, s4, s5]
-  have e6 : step proc s5 t = some s6 := by simp [step, s5, s6]
+  have e1 : step proc true s t = some s1 := by simp [step, ht, htab, s1]
+  have e2 : step proc true s1 t = some s2 := by simp [step, s1, s2, hh]
+  have e3 : step proc true s2 t = some s3 := by simp [step, s2, s3, s1]
+  have e4 : step proc true s3 t = some s4 := by simp [step, s3, s4, s2, s1]
+  have e5 : step proc true s4 t = some s5 := by simp [step, s4, s5]
+  have e6 : step proc true s5 t = some s6 := by simp [step, s5, s6]
   refine ⟨s6, ?_, ?_, ?_, ?_, ?_⟩
   · simp only [runThread, e1, e2, e3, e4, e5, e6, Option.bind_some]
   · simp [s6]
@@ -125,10 +125,10 @@ theorem later_append_succeeds (s : Sys) (h : Reachable proc n0 s) (q : quiescent
 
 /-- no deadlock: if some thread is blocked waiting for the flock, the holder has an enabled step;
 every thread that has not returned and is not waiting has an enabled step itself. -/
-theorem no_deadlock (s : Sys) (h : Reachable proc n0 s) (t : Nat)
+theorem no_deadlock (s : Sys) (h : Reachable proc true n0 s) (t : Nat)
     (ht : ∀ i, s.pc t ≠ .doneOk i) (ht' : s.pc t ≠ .doneErr) :
-    (∃ s', step proc s t = some s') ∨
-    (s.pc t = .wantFlock ∧ ∃ u s', s.holder = some u ∧ step proc s u = some s') := by
+    (∃ s', step proc true s t = some s') ∨
+    (s.pc t = .wantFlock ∧ ∃ u s', s.holder = some u ∧ step proc true s u = some s') := by
   have inv := reachable_inv proc n0 s h
   cases hpc : s.pc t with
   | start => left; unfold step; rw [hpc]; by_cases hb : s.table (proc t) = true <;> simp [hb]
@@ -149,12 +149,13 @@ theorem no_deadlock (s : Sys) (h : Reachable proc n0 s) (t : Nat)
   | unlocked i => left; unfold step; rw [hpc]; exact ⟨_, rfl⟩
   | doneOk i => exact absurd hpc (ht i)
   | doneErr => exact absurd hpc ht'
+  | lockFailed => left; unfold step; rw [hpc]; exact ⟨_, rfl⟩
 
 /-- the schedule-level semantics that the correspondence harness validates against the real code
 only ever takes atomic steps: every state it produces is reachable, so every theorem above applies
 to every state the driven implementation was observed in. -/
-theorem wake_reachable (n : Nat) (sc : Sched) (h : Reachable proc n0 sc.sys) :
-    Reachable proc n0 (wake proc n sc).sys := by
+theorem wake_reachable (n : Nat) (sc : Sched) (h : Reachable proc true n0 sc.sys) :
+    Reachable proc true n0 (wake proc true n sc).sys := by
   unfold wake
   split
   · exact h
@@ -165,47 +166,212 @@ theorem wake_reachable (n : Nat) (sc : Sched) (h : Reachable proc n0 sc.sys) :
       · rename_i s' hs; exact .step u h hs
       · exact h
 
-theorem release_reachable (n : Nat) (sc : Sched) (t : Nat) (h : Reachable proc n0 sc.sys) :
-    Reachable proc n0 (release proc n sc t).sys := by
-  unfold release
+theorem tryLock_reachable (sc : Sched) (t : Nat) (h : Reachable proc true n0 sc.sys) :
+    Reachable proc true n0 (tryLock proc true sc t).sys := by
+  unfold tryLock
   split
-  · exact h
   · split
     · exact h
     · split
-      · split
-        · exact h
-        · rename_i s1 hs1
-          split
-          · exact .step t h hs1
-          · split
-            · rename_i s2 hs2; exact .step t (.step t h hs1) hs2
-            · exact .step t h hs1
-      · split
-        · rename_i s1 hs1; exact .step t h hs1
-        · exact h
-      · split
-        · rename_i s1 hs1; exact .step t h hs1
-        · exact h
-      · split
-        · exact h
-        · rename_i s1 hs1
-          split
-          · rename_i s2 hs2
-            exact wake_reachable proc n0 n _ (.step t (.step t h hs1) hs2)
-          · exact h
       · exact h
+      · rename_i s1 hs1
+        split
+        · exact .step t h hs1
+        · rename_i s2 hs2
+          split
+          · rename_i s3 hs3; exact .step t (.fail t (.step t h hs1) hs2) hs3
+          · exact .fail t (.step t h hs1) hs2
+  · exact h
 
-theorem schedule_reachable (n : Nat) (sched : List Nat) (sc : Sched) (h : Reachable proc n0 sc.sys) :
-    Reachable proc n0 (sched.foldl (release proc n) sc).sys := by
+theorem release_reachable (n : Nat) (sc : Sched) (t : Nat) (h : Reachable proc true n0 sc.sys) :
+    Reachable proc true n0 (release proc true n sc t).sys := by
+  unfold release
+  split
+  · exact tryLock_reachable proc n0 sc t h
+  · split
+    · exact h
+    · split
+      · exact h
+      · split
+        · split
+          · exact h
+          · rename_i s1 hs1
+            split
+            · exact .step t h hs1
+            · split
+              · rename_i s2 hs2; exact .step t (.step t h hs1) hs2
+              · exact .step t h hs1
+        · split
+          · rename_i s1 hs1; exact .step t h hs1
+          · exact h
+        · split
+          · rename_i s1 hs1; exact .step t h hs1
+          · exact h
+        · split
+          · exact h
+          · rename_i s1 hs1
+            split
+            · rename_i s2 hs2
+              exact wake_reachable proc n0 n _ (.step t (.step t h hs1) hs2)
+            · exact h
+        · exact h
+
+theorem schedule_reachable (n : Nat) (sched : List Nat) (sc : Sched) (h : Reachable proc true n0 sc.sys) :
+    Reachable proc true n0 (sched.foldl (release proc true n) sc).sys := by
   induction sched generalizing sc with
   | nil => exact h
   | cons t ts ih => exact ih _ (release_reachable proc n0 n sc t h)
 
+/-- read from cmsys/lock.go on every run: GoFlock, GoFlockExNb and GoPttLock take the key out of the
+lock table again when the kernel lock is not obtained (`cl = true` in the theorems above). -/
+theorem source_cleans_up : sourceCleansUp = true := by decide
+
+/-- read from the source on every run: every function that takes one of these locks registers the
+unlock with `defer` before any statement that can return. -/
+theorem source_users_defer : usersDeferOf Gen.Lock.lockUsers = true := by decide
+
+/-- a lock attempt that the kernel refuses (EWOULDBLOCK, EINTR, …) leaves nothing behind: the call
+returns an error and its process's table entry is free again. -/
+theorem failed_lock_released (s : Sys) (t : Nat) (ht : s.pc t = .wantFlock) :
+    ∃ s1 s2, failStep s t = some s1 ∧ step proc true s1 t = some s2 ∧
+      s2.pc t = .doneErr ∧ s2.table (proc t) = false ∧ s2.holder = s.holder ∧ s2.recs = s.recs := by
+  let s1 : Sys := { s with pc := setPc s t .lockFailed }
+  let s2 : Sys := { s1 with pc := setPc s1 t .doneErr, table := setTable s1 (proc t) false }
+  exact ⟨s1, s2, by simp [failStep, ht, s1], by simp [step, s1, s2], by simp [s2], by simp [s2, setTable], rfl, rfl⟩
+
+/-- actions of a history: an atomic step of a thread, or a refused kernel lock call of a thread. -/
+inductive Act where
+  | st (t : Nat)
+  | fl (t : Nat)
+
+def exec (cl : Bool) : List Act → Sys → Option Sys
+  | [], s => some s
+  | .st t :: as, s => (step proc cl s t).bind (exec cl as)
+  | .fl t :: as, s => (failStep s t).bind (exec cl as)
+
+theorem exec_reachable (cl : Bool) : ∀ (as : List Act) (s s' : Sys), Reachable proc cl n0 s →
+    exec proc cl as s = some s' → Reachable proc cl n0 s' := by
+  intro as
+  induction as with
+  | nil => intro s s' r e; simp [exec] at e; subst e; exact r
+  | cons a as ih =>
+    intro s s' r e
+    cases a with
+    | st t =>
+      simp only [exec] at e
+      cases hs : step proc cl s t with
+      | none => rw [hs] at e; simp at e
+      | some s1 => rw [hs] at e; exact ih s1 s' (.step t r hs) e
+    | fl t =>
+      simp only [exec] at e
+      cases hs : failStep s t with
+      | none => rw [hs] at e; simp at e
+      | some s1 => rw [hs] at e; exact ih s1 s' (.fail t r hs) e
+
+/-- a thread's state is changed by its own steps only. -/
+theorem step_pc_other (cl : Bool) (s s' : Sys) (t u : Nat) (h : step proc cl s t = some s') (hu : u ≠ t) :
+    s'.pc u = s.pc u := by
+  unfold step at h
+  split at h
+  · split at h <;> (simp only [Option.some.injEq] at h; subst h; simp [setPc, hu])
+  · split at h
+    · simp only [Option.some.injEq] at h; subst h; simp [setPc, hu]
+    · simp at h
+  · simp only [Option.some.injEq] at h; subst h; simp [setPc, hu]
+  · simp only [Option.some.injEq] at h; subst h; simp [setPc, hu]
+  · simp only [Option.some.injEq] at h; subst h; simp [setPc, hu]
+  · simp only [Option.some.injEq] at h; subst h; simp [setPc, hu]
+  · split at h <;> (simp only [Option.some.injEq] at h; subst h; simp [setPc, hu])
+  · simp at h
+  · simp at h
+
+theorem failStep_pc_other (s s' : Sys) (t u : Nat) (h : failStep s t = some s') (hu : u ≠ t) :
+    s'.pc u = s.pc u := by
+  unfold failStep at h
+  split at h
+  · simp only [Option.some.injEq] at h; subst h; simp [setPc, hu]
+  · simp at h
+
+def Act.thread : Act → Nat
+  | .st t => t
+  | .fl t => t
+
+theorem exec_pc_other (cl : Bool) (u : Nat) : ∀ (as : List Act) (s s' : Sys),
+    exec proc cl as s = some s' → (∀ a ∈ as, a.thread ≠ u) → s'.pc u = s.pc u := by
+  intro as
+  induction as with
+  | nil => intro s s' e _; simp [exec] at e; subst e; rfl
+  | cons a as ih =>
+    intro s s' e hne
+    have ha : a.thread ≠ u := hne a (by simp)
+    have hrest : ∀ b ∈ as, b.thread ≠ u := fun b hb => hne b (by simp [hb])
+    cases a with
+    | st t =>
+      simp only [exec] at e
+      cases hs : step proc cl s t with
+      | none => rw [hs] at e; simp at e
+      | some s1 =>
+        rw [hs] at e
+        rw [ih s1 s' e hrest]
+        exact step_pc_other proc cl s s1 t u hs (fun h => ha (by simp [Act.thread, h]))
+    | fl t =>
+      simp only [exec] at e
+      cases hs : failStep s t with
+      | none => rw [hs] at e; simp at e
+      | some s1 =>
+        rw [hs] at e
+        rw [ih s1 s' e hrest]
+        exact failStep_pc_other s s1 t u hs (fun h => ha (by simp [Act.thread, h]))
+
+/-- the history of the defect repaired by d86fe7a: thread 0 (process 0) takes the flock, thread 1
+(process 1) tries and is refused by the kernel, thread 0 finishes. -/
+def leakHistory : List Act := [.st 0, .st 0, .st 1, .fl 1, .st 1, .st 0, .st 0, .st 0, .st 0]
+
+def leakState (cl : Bool) : Sys := (exec (fun t => t % 2) cl leakHistory (init 0)).getD (init 0)
+
+theorem leakState_eq (cl : Bool) : exec (fun t => t % 2) cl leakHistory (init 0) = some (leakState cl) := by
+  have : ∀ o : Option Sys, o.isSome = true → o = some (o.getD (init 0)) := by
+    intro o h; cases o <;> simp at h ⊢
+  exact this _ (by cases cl <;> decide)
+
+/-- the negation without the cleanup: after `leakHistory` every call has returned and the flock is
+free, yet process 1's table entry is still set, and the next append of process 1 (thread 3) fails. -/
+theorem leak_without_cleanup :
+    Reachable (fun t => t % 2) false 0 (leakState false) ∧
+      (∀ t, (leakState false).pc t = .start ∨ (∃ i, (leakState false).pc t = .doneOk i) ∨ (leakState false).pc t = .doneErr) ∧
+      (leakState false).holder = none ∧ (leakState false).table 1 = true ∧
+      ∃ s', step (fun t => t % 2) false (leakState false) 3 = some s' ∧ s'.pc 3 = .doneErr := by
+  refine ⟨?_, ?_, by decide, by decide, ?_⟩
+  · exact exec_reachable (fun t => t % 2) 0 false leakHistory (init 0) _ .init (leakState_eq false)
+  · intro t
+    by_cases h0 : t = 0
+    · subst h0; right; left; exact ⟨0, by decide⟩
+    · by_cases h1 : t = 1
+      · subst h1; right; right; decide
+      · left
+        rw [exec_pc_other (fun t => t % 2) false t leakHistory (init 0) _ (leakState_eq false)]
+        · rfl
+        · intro a ha
+          simp [leakHistory] at ha
+          rcases ha with rfl | rfl | rfl | rfl | rfl <;> simp [Act.thread] <;> omega
+  · have h3 : (leakState false).pc 3 = .start := by
+      rw [exec_pc_other (fun t => t % 2) false 3 leakHistory (init 0) _ (leakState_eq false)]
+      · rfl
+      · intro a ha
+        simp [leakHistory] at ha
+        rcases ha with rfl | rfl | rfl | rfl | rfl <;> simp [Act.thread]
+    have htab : (leakState false).table 1 = true := by decide
+    refine ⟨{ leakState false with pc := setPc (leakState false) 3 .doneErr }, ?_, by simp⟩
+    simp [step, h3, htab]
+
+/-- with the cleanup the same history ends with every table entry free (instance of `locks_released`). -/
+example : (leakState true).table 0 = false ∧ (leakState true).table 1 = false ∧ (leakState true).holder = none := by
+  decide
+
 /-! non-vacuity: the hypotheses are met by reachable states — from the initial system an appender
 runs to completion, giving a reachable quiescent state with a returned index. -/
-example : ∃ s, Reachable (fun t => t) 3 s ∧ s.pc 0 = .doneOk 3 ∧ s.recs = [none, none, none, some 0] := by
-  have r0 : Reachable (fun t => t) 3 (init 3) := .init
+example : ∃ s, Reachable (fun t => t) true 3 s ∧ s.pc 0 = .doneOk 3 ∧ s.recs = [none, none, none, some 0] := by
+  have r0 : Reachable (fun t => t) true 3 (init 3) := .init
   obtain ⟨s6, e6, p6, r6, _, _⟩ :=
     later_append_succeeds (fun t => t) 3 (init 3) r0 (by intro t; simp [init, owns]) 0 (by simp [init])
   exact ⟨s6, runThread_reachable (fun t => t) 3 0 6 _ _ r0 e6, by simpa [init] using p6, by simpa [init] using r6⟩
